@@ -12,7 +12,7 @@ import (
 
 // columns of Perm and what the property permits on each
 // ("->" in any form is read-only unless "<-" is configured as well — gorm's documented tag table)
-var c10Creatable = map[string]bool{"id": true, "plain": true, "num": true, "createonly": true, "writeonly": true, "nomig": true, "createdat": true, "updatedat": true}
+var c10Creatable = map[string]bool{"id": true, "plain": true, "num": true, "createonly": true, "writeonly": true, "nomig": true, "createdat": true, "updatedat": true, "touchedms": true, "seenat": true}
 var c10Updatable = map[string]bool{"id": true, "plain": true, "num": true, "updateonly": true, "writeonly": true, "nomig": true, "createdat": true, "updatedat": true, "stamp": true}
 
 // backquoted names of a comma separated column / assignment list
